@@ -1,11 +1,18 @@
 // C07 correspondence harness: the real MemoryLeakWarningPlugin in a private TestRegistry with
 // scripted tests.  Every test is a UtestShell whose Utest interprets a script of
-// alloc / free / expect / ignore / fail commands in setup, body and teardown; an extra phase
-// `o` ("outside") runs just before the test's pre action (allocation between tests).
+// alloc / free / realloc / expect / ignore / fail commands.  Phases of a test:
+//   o  "outside": just before the test's pre action (memory operations between tests; also
+//      `overloads on|off` and `separate`)
+//   c  the constructor of the Utest object (createTest, INSIDE the leak window), memory operations only
+//   s  setup      b  body      t  teardown
+//   d  the destructor of the Utest object (destroyTest, INSIDE the window), memory operations only
 //
 // Modes (first op line):
 //   mode private              private MemoryLeakDetector, allocations made by calling
-//                             allocMemory/deallocMemory on it with a plain TestMemoryAllocator
+//                             allocMemory/deallocMemory/reallocMemory on it with an ARENA allocator
+//                             that hands out chosen addresses: every block lands in one of three
+//                             hash buckets of the detector's table (address % 73 in {0, 8, 16}), so
+//                             new blocks routinely share a bucket with older live ones
 //   mode private nooverloads  the same with MemoryLeakWarningPlugin::turnOffNewDeleteOverloads()
 //   mode global               the global detector with real operator new / new[] / cpputest_malloc
 //
@@ -14,10 +21,16 @@
 // with the PlatformSpecificRealloc seam wrapped so that the platform realloc returns NULL (the seam
 // is restored before the case ends).
 //
+// `cmd <t> o separate` runs test <t> in a separate process (UtestShell::setRunInSeperateProcess):
+// pre action, test and post action then happen in a forked child.  The per-test tables live in
+// shared memory, so the child's trace (and its leak report) is still printed; the block table
+// (label -> pointer) is private to each process, as the memory is.
+//
 // Nothing in the harness allocates through operator new between a pre and a post action except
 // the test object itself (created and destroyed inside the window by the runner): all
 // bookkeeping lives in static tables and the trace is printed after the run.
 #include "common.h"
+#include <sys/mman.h>
 #include "CppUTest/TestHarness.h"
 #include "CppUTest/TestRegistry.h"
 #include "CppUTest/TestOutput.h"
@@ -39,8 +52,9 @@
 
 namespace {
 
-enum { MAXT = 48, MAXC = 40, MAXL = 2048, MSG = 12000 };
-enum Kind { K_ALLOC, K_FREE, K_EXPECT, K_IGNORE, K_FAIL, K_REALLOC, K_REALLOC_FAIL };
+enum { MAXT = 48, MAXC = 40, MAXL = 2048, MSG = 12000, NPH = 6 };
+enum { PH_O = 0, PH_C = 1, PH_S = 2, PH_B = 3, PH_T = 4, PH_D = 5 };
+enum Kind { K_ALLOC, K_FREE, K_EXPECT, K_IGNORE, K_FAIL, K_REALLOC, K_REALLOC_FAIL, K_OVERLOADS, K_SEPARATE };
 enum Note { N_SKIPPED, N_OK, N_DUP, N_NOLIVE, N_BADKIND, N_UNEXPECTED };
 enum AKind { A_NEW, A_NEWARR, A_MALLOC };
 
@@ -51,25 +65,81 @@ struct Cmd {
 };
 struct TestDef {
     int label;
-    Cmd cmds[4][MAXC]; int n[4];                // phases o s b t
+    Cmd cmds[NPH][MAXC]; int n[NPH];
     size_t fcBefore, fcAfter;
-    int nfail; int nleakfail; bool warned; bool ran;
+    int nfail; int nleakfail; int parentFail; long warnN; bool ran; bool separate;
     char msg[MSG];                              // text of the failure added outside the phases
 };
 struct Block { void* p; size_t size; int akind; };
 
-TestDef g_tests[MAXT];
+TestDef* g_tests = 0;                           // MAXT entries in shared memory
 int g_ntests = 0;
-Block g_blocks[MAXL];
+Block g_blocks[MAXL];                           // private to each process
 int g_cur = -1;
 bool g_inPhase = false;
 bool g_global = false;
 bool g_nooverloads = false;
+pid_t g_casePid = 0;
 MemoryLeakDetector* g_det = 0;
 TestMemoryAllocator* g_alloc = 0;
 TestResult* g_result = 0;
 
 const char* const FILE_NAME = "h_c07.cpp";
+
+// ---- arena with chosen addresses (private mode)
+//
+// slot i starts at base + i*STRIDE + (i % 3)*8 with base % 73 == 0 and STRIDE = 73*8, so that
+// `address % 73` (the detector's hash) is (i % 3)*8.  Requests that do not fit go to the platform.
+enum { STRIDE = 73 * 8, NSLOTS = 1536, USABLE = STRIDE - 16 };
+char g_arenaRaw[(size_t) STRIDE * (NSLOTS + 2)];
+char* g_arenaBase = 0;
+bool g_slotUsed[NSLOTS];
+
+void arena_init() {
+    char* p = g_arenaRaw;
+    while (((size_t) p % 8) != 0 || ((size_t) p % 73) != 0) p++;
+    g_arenaBase = p;
+    memset(g_slotUsed, 0, sizeof(g_slotUsed));
+}
+inline char* slot_ptr(int i) { return g_arenaBase + (size_t) i * STRIDE + (size_t) (i % 3) * 8; }
+inline bool in_arena(const void* p) {
+    return g_arenaBase && (const char*) p >= g_arenaBase && (const char*) p < g_arenaBase + (size_t) STRIDE * NSLOTS;
+}
+inline int slot_of(const void* p) { return (int) (((const char*) p - g_arenaBase) / STRIDE); }
+char* arena_alloc(size_t size) {
+    if (size > USABLE) return 0;
+    for (int i = 0; i < NSLOTS; i++) if (!g_slotUsed[i]) { g_slotUsed[i] = true; return slot_ptr(i); }
+    return 0;
+}
+
+class ArenaAllocator : public TestMemoryAllocator {
+public:
+    ArenaAllocator() : TestMemoryAllocator("c07 arena allocator", "c07alloc", "c07free") {}
+    char* alloc_memory(size_t size, const char*, size_t) CPPUTEST_OVERRIDE {
+        char* p = arena_alloc(size);
+        return p ? p : (char*) PlatformSpecificMalloc(size);
+    }
+    void free_memory(char* memory, size_t, const char*, size_t) CPPUTEST_OVERRIDE {
+        if (in_arena(memory)) g_slotUsed[slot_of(memory)] = false;
+        else PlatformSpecificFree(memory);
+    }
+};
+
+// ---- the PlatformSpecificRealloc seam
+void* (*g_realRealloc)(void*, size_t) = 0;
+bool g_failRealloc = false;
+void* wrapped_realloc(void* p, size_t n) {
+    if (g_failRealloc) return 0;
+    if (p && in_arena(p)) {                       // a block of the arena moves to another slot (or out of it)
+        char* q = arena_alloc(n);
+        if (!q) q = (char*) PlatformSpecificMalloc(n);
+        if (!q) return 0;
+        memcpy(q, p, n < (size_t) USABLE ? n : (size_t) USABLE);
+        g_slotUsed[slot_of(p)] = false;
+        return q;
+    }
+    return g_realRealloc(p, n);
+}
 
 void* do_alloc(size_t size, int akind, int label) {
     void* p = 0;
@@ -88,16 +158,6 @@ void do_free(Block& b) {
     else if (b.akind == A_NEWARR) ::operator delete[](b.p);
     else cpputest_free_location(b.p, FILE_NAME, 1);
     b.p = 0;
-}
-
-// ---- the PlatformSpecificRealloc seam
-void* (*g_realRealloc)(void*, size_t) = 0;
-bool g_failRealloc = false;
-int g_reallocCalls = 0;
-void* wrapped_realloc(void* p, size_t n) {
-    g_reallocCalls++;
-    if (g_failRealloc) return 0;
-    return g_realRealloc(p, n);
 }
 
 void* do_realloc(Block& b, size_t size, int label) {
@@ -131,6 +191,8 @@ void exec_realloc(Cmd& c) {
     }
 }
 
+bool is_mem(int kind) { return kind == K_ALLOC || kind == K_FREE || kind == K_REALLOC || kind == K_REALLOC_FAIL; }
+
 void exec_mem(Cmd& c) {
     if (c.kind == K_REALLOC || c.kind == K_REALLOC_FAIL) { exec_realloc(c); return; }
     Block& b = g_blocks[c.label];
@@ -145,6 +207,12 @@ void exec_mem(Cmd& c) {
         do_free(b);
         c.note = N_OK;
     }
+}
+
+// constructor / destructor of the test object: memory operations only
+void run_mem_phase(int t, int ph) {
+    TestDef& d = g_tests[t];
+    for (int i = 0; i < d.n[ph]; i++) if (is_mem(d.cmds[ph][i].kind)) exec_mem(d.cmds[ph][i]);
 }
 
 struct PhaseGuard {            // a failing check leaves the phase by an exception
@@ -165,6 +233,7 @@ void run_phase(int t, int ph) {
             c.note = N_OK;
             UtestShell::getCurrent()->fail("own failure", FILE_NAME, 1);   // does not return
             break;
+        default: break;
         }
     }
 }
@@ -172,10 +241,11 @@ void run_phase(int t, int ph) {
 class ScriptTest : public Utest {
 public:
     int t_;
-    explicit ScriptTest(int t) : t_(t) {}
-    void setup() CPPUTEST_OVERRIDE { run_phase(t_, 1); }
-    void testBody() CPPUTEST_OVERRIDE { run_phase(t_, 2); }
-    void teardown() CPPUTEST_OVERRIDE { run_phase(t_, 3); }
+    explicit ScriptTest(int t) : t_(t) { run_mem_phase(t_, PH_C); }
+    ~ScriptTest() CPPUTEST_DESTRUCTOR_OVERRIDE { run_mem_phase(t_, PH_D); }
+    void setup() CPPUTEST_OVERRIDE { run_phase(t_, PH_S); }
+    void testBody() CPPUTEST_OVERRIDE { run_phase(t_, PH_B); }
+    void teardown() CPPUTEST_OVERRIDE { run_phase(t_, PH_T); }
 };
 
 class ScriptShell : public UtestShell {
@@ -190,16 +260,24 @@ ScriptShell g_shells[MAXT];
 class RecOutput : public TestOutput {
 public:
     void printBuffer(const char* s) CPPUTEST_OVERRIDE {
-        if (g_cur >= 0 && strstr(s, "leak detection was disabled")) g_tests[g_cur].warned = true;
+        const char* w = strstr(s, "Warning: Expected ");
+        if (g_cur >= 0 && w && strstr(s, "leak detection was disabled"))
+            g_tests[g_cur].warnN = strtol(w + strlen("Warning: Expected "), 0, 10);
     }
     void flush() CPPUTEST_OVERRIDE {}
     void printCurrentTestStarted(const UtestShell& test) CPPUTEST_OVERRIDE {
         g_cur = ((const ScriptShell&) test).t_;
         TestDef& d = g_tests[g_cur];
         d.ran = true;
-        for (int i = 0; i < d.n[0]; i++) {           // phase o: memory operations only
-            Cmd& c = d.cmds[0][i];
+        for (int i = 0; i < d.n[PH_O]; i++) {        // phase o: alloc / free and switches only
+            Cmd& c = d.cmds[PH_O][i];
             if (c.kind == K_ALLOC || c.kind == K_FREE) exec_mem(c);
+            else if (c.kind == K_OVERLOADS && !g_global) {
+                if (c.arg) MemoryLeakWarningPlugin::turnOnDefaultNotThreadSafeNewDeleteOverloads();
+                else MemoryLeakWarningPlugin::turnOffNewDeleteOverloads();
+                c.note = N_OK;
+            }
+            else if (c.kind == K_SEPARATE) c.note = N_OK;
         }
         d.fcBefore = g_result->getFailureCount();
     }
@@ -210,11 +288,15 @@ public:
     void printFailure(const TestFailure& failure) CPPUTEST_OVERRIDE {
         if (g_cur < 0) return;
         TestDef& d = g_tests[g_cur];
+        SimpleString message = failure.getMessage();
+        const char* m = message.asCharString();
+        if (d.separate && getpid() == g_casePid) {          // the parent's verdict about the child
+            d.parentFail += strncmp(m, "Failed in separate process", 26) == 0 ? 1 : 100;
+            return;
+        }
         d.nfail++;
         if (!g_inPhase) {
             d.nleakfail++;
-            SimpleString message = failure.getMessage();
-            const char* m = message.asCharString();
             size_t n = strlen(m); if (n >= MSG) n = MSG - 1;
             memcpy(d.msg, m, n); d.msg[n] = 0;
         }
@@ -262,7 +344,7 @@ void emit_report(const char* what, const char* text) {
     if (!header && !none && text[0]) vh::emit("text %s", vh::hex(std::string(text).substr(0, 60)).c_str());
 }
 
-const char* phase_name(int ph) { return ph == 0 ? "o" : ph == 1 ? "s" : ph == 2 ? "b" : "t"; }
+const char* phase_name(int ph) { return ph == PH_O ? "o" : ph == PH_C ? "c" : ph == PH_S ? "s" : ph == PH_B ? "b" : ph == PH_T ? "t" : "d"; }
 
 void emit_cmd(int ph, const Cmd& c) {
     const char* p = phase_name(ph);
@@ -274,6 +356,8 @@ void emit_cmd(int ph, const Cmd& c) {
     case K_FAIL: vh::emit("> cmd %s fail", p); break;
     case K_REALLOC: vh::emit("> cmd %s realloc %d %d %lu", p, c.label, c.label2, (unsigned long) c.arg); break;
     case K_REALLOC_FAIL: vh::emit("> cmd %s realloc-fail %d %lu", p, c.label, (unsigned long) c.arg); break;
+    case K_OVERLOADS: vh::emit("> cmd %s overloads %s", p, c.arg ? "on" : "off"); break;
+    case K_SEPARATE: vh::emit("> cmd %s separate", p); break;
     }
     switch (c.note) {
     case N_SKIPPED: vh::emit("skipped"); break;
@@ -294,11 +378,21 @@ int declare_test(int label) {
     if (i >= 0) return i;
     if (g_ntests >= MAXT) return -1;
     g_tests[g_ntests].label = label;
+    g_tests[g_ntests].warnN = -1;
     return g_ntests++;
 }
 
+int phase_of(const std::string& s) {
+    return s == "o" ? PH_O : s == "c" ? PH_C : s == "s" ? PH_S : s == "b" ? PH_B : s == "t" ? PH_T : s == "d" ? PH_D : -1;
+}
+
 void run_case(const vh::Case& c) {
-    bool final_report = false;
+    bool final_report = false; size_t final_arg = 0; bool destroy = false;
+    g_casePid = getpid();
+    g_tests = (TestDef*) mmap(0, sizeof(TestDef) * MAXT, PROT_READ | PROT_WRITE, MAP_SHARED | MAP_ANONYMOUS, -1, 0);
+    if (g_tests == (TestDef*) MAP_FAILED) { vh::emit("harness-error mmap"); return; }
+    memset(g_tests, 0, sizeof(TestDef) * MAXT);
+    arena_init();
     // ---- parse into the static tables
     for (size_t i = 0; i < c.ops.size(); i++) {
         const vh::Words& w = c.ops[i];
@@ -307,10 +401,11 @@ void run_case(const vh::Case& c) {
             g_nooverloads = !g_global && w.size() >= 3 && w[2] == "nooverloads";
         }
         else if (w[0] == "test" && w.size() >= 2) declare_test((int) vh::to_u64(w[1]));
-        else if (w[0] == "final") final_report = true;   // honoured in private mode only (see below)
+        else if (w[0] == "final") { final_report = true; final_arg = w.size() >= 2 ? (size_t) vh::to_u64(w[1]) : 0; }   // private mode only (see below)
+        else if (w[0] == "destroy") destroy = true;                                                                // global mode only
         else if (w[0] == "cmd" && w.size() >= 4) {         // cmd <test> <phase> <kind> [args]
             int t = declare_test((int) vh::to_u64(w[1]));
-            int ph = w[2] == "o" ? 0 : w[2] == "s" ? 1 : w[2] == "b" ? 2 : w[2] == "t" ? 3 : -1;
+            int ph = phase_of(w[2]);
             if (t < 0 || ph < 0 || g_tests[t].n[ph] >= MAXC) continue;
             Cmd cm; cm.kind = -1; cm.label = 0; cm.label2 = 0; cm.arg = 0; cm.akind = A_NEW; cm.note = N_SKIPPED; cm.num = 0;
             if (w[3] == "alloc" && w.size() >= 6) {
@@ -328,14 +423,16 @@ void run_case(const vh::Case& c) {
             else if (w[3] == "expect" && w.size() >= 5) { cm.kind = K_EXPECT; cm.arg = (size_t) vh::to_u64(w[4]); }
             else if (w[3] == "ignore") cm.kind = K_IGNORE;
             else if (w[3] == "fail") cm.kind = K_FAIL;
+            else if (w[3] == "overloads" && w.size() >= 5 && ph == PH_O) { cm.kind = K_OVERLOADS; cm.arg = w[4] == "on" ? 1 : 0; }
+            else if (w[3] == "separate" && ph == PH_O) { cm.kind = K_SEPARATE; g_tests[t].separate = true; }
             if (cm.kind >= 0) g_tests[t].cmds[ph][g_tests[t].n[ph]++] = cm;
         }
     }
 
     // ---- the real objects: ONE plugin per process (firstPlugin_ is never cleared)
     RecLeakFailure leakFailure;
-    TestMemoryAllocator privateAllocator("c07 allocator", "c07alloc", "c07free");
-    g_alloc = &privateAllocator;
+    ArenaAllocator arenaAllocator;
+    g_alloc = &arenaAllocator;
     MemoryLeakDetector* privateDetector = 0;
     if (!g_global) privateDetector = new MemoryLeakDetector(&leakFailure);
     MemoryLeakWarningPlugin* plugin = g_global ? new MemoryLeakWarningPlugin("c07plugin")
@@ -347,19 +444,22 @@ void run_case(const vh::Case& c) {
     g_result = result;
     TestRegistry* registry = new TestRegistry;
     registry->installPlugin(plugin);
-    for (int i = g_ntests - 1; i >= 0; i--) { g_shells[i].t_ = i; registry->addTest(&g_shells[i]); }
+    for (int i = g_ntests - 1; i >= 0; i--) {
+        g_shells[i].t_ = i;
+        if (g_tests[i].separate) g_shells[i].setRunInSeperateProcess();
+        registry->addTest(&g_shells[i]);
+    }
 
     g_realRealloc = PlatformSpecificRealloc;            // wrap the seam for the run only
     PlatformSpecificRealloc = wrapped_realloc;
     if (g_nooverloads) MemoryLeakWarningPlugin::turnOffNewDeleteOverloads();
     registry->runAllTests(*result);
-    PlatformSpecificRealloc = g_realRealloc;
-    if (g_nooverloads) MemoryLeakWarningPlugin::turnOnDefaultNotThreadSafeNewDeleteOverloads();
+    MemoryLeakWarningPlugin::turnOnDefaultNotThreadSafeNewDeleteOverloads();
     g_cur = -1;
 
     if (g_global) final_report = false;     // the global table also holds the harness' own objects
     std::string finalText;
-    if (final_report) finalText = plugin->FinalReport(0);
+    if (final_report) finalText = plugin->FinalReport(final_arg);
 
     // ---- trace, in script order
     vh::emit("> mode %s%s", g_global ? "global" : "private", g_nooverloads ? " nooverloads" : "");
@@ -367,24 +467,38 @@ void run_case(const vh::Case& c) {
         TestDef& d = g_tests[t];
         vh::emit("> test %d", d.label);
         if (!d.ran) { vh::emit("notrun"); continue; }
-        for (int i = 0; i < d.n[0]; i++) emit_cmd(0, d.cmds[0][i]);
+        for (int i = 0; i < d.n[PH_O]; i++) emit_cmd(PH_O, d.cmds[PH_O][i]);
         vh::emit("> pre");
-        for (int ph = 1; ph <= 3; ph++) for (int i = 0; i < d.n[ph]; i++) emit_cmd(ph, d.cmds[ph][i]);
+        for (int ph = PH_C; ph <= PH_D; ph++) for (int i = 0; i < d.n[ph]; i++) emit_cmd(ph, d.cmds[ph][i]);
         vh::emit("> post");
         vh::emit("failures %d", d.nfail);
         if (d.nleakfail == 1) emit_report("leakfail", d.msg);
         else if (d.nleakfail > 1) vh::emit("leakfail-many %d", d.nleakfail);
-        if (d.warned) vh::emit("warn");
+        if (d.warnN >= 0) vh::emit("warn %ld", d.warnN);
+        if (d.separate) vh::emit("parentfail %d", d.parentFail);
         vh::emit("fc %lu", (unsigned long) d.fcAfter);
     }
-    if (final_report) { vh::emit("> final"); emit_report("final", finalText.c_str()); }
+    if (final_report) { vh::emit("> final %lu", (unsigned long) final_arg); emit_report("final", finalText.c_str()); }
     if (leakFailure.count) vh::emit("detector-misuse %d", leakFailure.count);
     fflush(stdout);
 
     // ---- give everything back (not part of the history)
+    PlatformSpecificRealloc = g_realRealloc;
     for (int l = 0; l < MAXL; l++) if (g_blocks[l].p) do_free(g_blocks[l]);
     delete registry; delete result; delete output;
-    // the plugin object stays alive until the process ends (firstPlugin_ keeps pointing to it)
+
+    if (destroy && g_global) {
+        // the end of CommandLineTestRunner::RunAllTests: the plugin destructor destroys the global detector
+        plugin->destroyGlobalDetectorAndTurnOffMemoryLeakDetectionInDestructor(true);
+        delete plugin;
+        bool on = MemoryLeakWarningPlugin::areNewDeleteOverloaded();
+        MemoryLeakDetector* fresh = MemoryLeakWarningPlugin::getGlobalDetector();     // created on demand
+        vh::emit("> destroy");
+        vh::emit("destroyed overloads %d leaks %lu nextnum %u", on ? 1 : 0,
+                 (unsigned long) fresh->totalMemoryLeaks(mem_leak_period_all), fresh->getCurrentAllocationNumber());
+        fflush(stdout);
+    }
+    // otherwise the plugin object stays alive until the process ends (firstPlugin_ keeps pointing to it)
 }
 
 } // namespace
